@@ -83,9 +83,14 @@ def one_case(ck, I, rng, t, RecF, RecJ, coq):
     for step in range(rng.choice([1, 2, 3, 4])):
         prev = None
         if step > 0:
-            op = rng.choice(['set', 'set', 'set', 'rewrap', 'copy'])
-            if op == 'set':
-                corr = G.gen_correction(rng, unit)
+            op = rng.choice(['set', 'set', 'set', 'rewrap', 'copy', 'repeat'])
+            last = next((h for h in reversed(hist) if h['op'] == 'set'), None)
+            if op == 'repeat' and last is None:
+                op = 'set'
+            if op in ('set', 'repeat'):
+                # 'repeat': the very same (matrix, shift) once more on the same object - corrections accumulate
+                corr = G.gen_correction(rng, unit) if op == 'set' else {'M': last['M'], 's': last['s']}
+                ck.count('correction_repeats_previous', op == 'repeat')
                 xq, yq = G.dyr(rng, 1, nx - 2, 3), G.dyr(rng, 1, ny - 2, 3)
                 ps_b, log_b = measure(c, xq, yq)
                 c.set_correction(corr['M'], corr['s'])
